@@ -29,7 +29,7 @@ TARGETS = {
     "common": ("py/formak/common.py", ["C14", "C13", "C01", "C04", "C02"]),
     "cpp": ("py/formak/cpp.py", ["C02", "C13", "C15", "C08", "C14", "C07", "C10", "C12"]),
     "fragments": ("py/formak/ast_fragments.py", ["C02", "C13", "C15", "C07", "C12", "C06"]),
-    "design": ("py/formak/ui/state_machine.py", ["C18", "C17"]),
+    "design": ("py/formak/ui_state_machine.py", ["C18", "C17"]),
     "strapdown": ("py/formak/reference_models/strapdown_imu.py", ["C19"]),
     "managed_h": ("cpp/runtime/include/formak/runtime/ManagedFilter.h", ["C10", "C11", "C12"]),
     "tools": ("py/formak/ast_tools.py", ["C02", "C15", "C12"]),
